@@ -32,6 +32,10 @@ const c05Rule = "chains M0 -> M1 (-> M2) of generated models, each step 1-2 docu
 func genC05(t *rapid.T) (C05Case, bool) {
 	cfg := rtGenConfig()
 	applyRuntimeExclusions(&cfg)
+	// only the C++ binary code runs here: shapes excluded because of Python or NDJSON findings are allowed
+	for _, sw := range []string{"generic-identity-alias", "nested-optional-via-alias", "array-of-struct", "union-as-generic-arg", "union-flags-with-number", "union-with-param-case", "array-of-vector", "union-nested-in-alias"} {
+		delete(cfg.Excl, sw)
+	}
 	cfg.MaxImports = 0
 	cfg.MaxProtocols = 1
 	cfg.MaxDefs = 5
